@@ -253,6 +253,42 @@ fn after_speed_record(run: &Run, eng: &Engine, record: &Node, coins: &[(CoinID, 
     }
 }
 
+/// Mints against the genesis coin (recorded at height 0) on a chain that is itself still young: the age rule of Mainnet
+/// (at least 100 blocks) and the puzzle seeded with the header at height 0 apply to it like to any other coin.
+pub fn genesis_coin_world(run: &Run, net: NetID, heights: &[u64], difficulties: &[(u32, bool)], thorough: bool) {
+    let eng = Engine::new(run);
+    let (_w, root) = root(net, 0, false);
+    let coins = vec![(CoinID::zero_zero(), 1_000_000_000u128, 0u64)];
+    let mut prev = root.clone();
+    let mut prev_h = 0u64;
+    // a header that is not the one at the coin's height: taken from block 1
+    let other_header = match advance(&eng, root.clone(), 1) {
+        Some(x) => x.view().header(),
+        None => return,
+    };
+    for h in heights {
+        prev = match advance(&eng, prev.clone(), h - 1 - prev_h) {
+            Some(x) => x,
+            None => return,
+        };
+        prev_h = h - 1;
+        let open = match eng.step(&prev, &Action::Open) {
+            StepOut::Next(x) => x,
+            _ => continue,
+        };
+        let cases = cases_for(&open, &coins, difficulties, thorough, &other_header);
+        run.states_add(cases.len() as u64);
+        cases.par_iter().for_each(|c| {
+            let a = Action::Batch { label: format!("genesis-coin: {}", c.label), txs: vec![c.tx.clone()], expect_ok: c.valid };
+            match eng.step(&open, &a) {
+                StepOut::Next(_) => run.outcome(if c.valid { "genesis-coin-mint:valid-accepted" } else { "genesis-coin-mint:accepted" }),
+                StepOut::Rejected => run.outcome(if c.valid { "genesis-coin-mint:valid-rejected" } else { "genesis-coin-mint:invalid-rejected" }),
+                StepOut::Pruned => run.outcome("genesis-coin-mint:engine-reported"),
+            }
+        });
+    }
+}
+
 /// The repository's public reward helpers against the reference transcription over a grid (so that a change to the formula is itself reported).
 fn formula_grid(run: &Run) {
     let speeds: Vec<u128> = vec![0, 1, 2, 1000, 1_000_000, 1 << 40, 1 << 80, u128::MAX];
@@ -302,6 +338,10 @@ pub fn run(run: &Run) {
     let m_ages: Vec<u64> = if thorough { vec![1, 50, 99, 100, 101] } else { vec![99, 100] };
     let m_diffs: Vec<(u32, bool)> = vec![(2, false), (8, false), (16, false), (3, true)];
     run_world(run, NetID::Mainnet, &m_ages, &m_diffs, thorough);
+    // the genesis coin on a chain younger than / as old as the Mainnet age threshold
+    let g_heights: Vec<u64> = if thorough { vec![1, 2, 50, 99, 100, 101] } else { vec![1, 99, 100] };
+    genesis_coin_world(run, NetID::Mainnet, &g_heights, &[(2, false), (8, false), (3, true)], thorough);
+    genesis_coin_world(run, NetID::Custom02, &g_heights[..2], &[(2, false), (3, true)], thorough);
     if thorough {
         run_world(run, NetID::Testnet, &[1, 2, 100], &[(2, false), (16, false), (3, true)], thorough);
     }
